@@ -94,6 +94,20 @@ CLAIMED["C03"] = (
     "DESIGN.md section 6, C03",
 )
 
+CLAIMED["C05"] = (
+    "Coq theorems for every geometry: compute_bounds is the coordinate-wise min/max over the envelope points (attained, "
+    "ordered, defined for every valid geometry), closed forms for time stamps / intervals / boxes / points (time-only types "
+    "span [0, MAX_FREQUENCY]); the shapely conversion keeps exactly the geometry's coordinates and the kind; every reported "
+    "feature is the named function of the bounds and num_segments the number of parts; every named position is the "
+    "corresponding corner / edge midpoint / centre and lies inside the bounds; convex combinations stay inside. "
+    "Correspondence compares bounds, shapely coordinates+kind, feature list and the nine positions exactly.",
+    "Trusted: Coq kernel/vm_compute; GEOS envelope re-implemented (shell only for polygons: holes assumed inside their shell); "
+    "centroid / point_on_surface are GEOS computations, only checked to lie inside the bounds (partial); zero-width boxes "
+    "compared as coordinate sets because GEOS drops the repeated closing point.",
+    "Rocq/Coq proof over Q + model/implementation correspondence by vm_compute (centroid clause: differential check only)",
+    "DESIGN.md section 6, C05",
+)
+
 NOT_YET = {}
 
 
